@@ -33,6 +33,8 @@ type Opts struct {
 	Fatal     int
 	FatalKind int
 	SrvOpts   []server.ServerOpt
+	// VRFs, when set, replaces the default non-default instances {VRF-A, VRF-B}.
+	VRFs []string
 	// RuntimeVRFs: create the VRFs with Server.AddNetworkInstance after New
 	// instead of server.WithVRFs.
 	RuntimeVRFs bool
@@ -133,22 +135,27 @@ func RunHistory(h hgen.History, o Opts) (*ev.Verdict, *l1.Trace) {
 	if o.NoRefCheck {
 		o.SrvOpts = append(append([]server.ServerOpt(nil), o.SrvOpts...), server.DisableRIBCheckFn())
 	}
+	vrfs := hgen.NIs[1:]
+	if o.VRFs != nil {
+		vrfs = o.VRFs
+	}
+	allNIs := append([]string{"DEFAULT"}, vrfs...)
 	var s *drive.Srv
 	if o.RuntimeVRFs {
 		s = drive.NewSrv(h.FwdRefs, nil, o.SrvOpts...)
-		for _, n := range hgen.NIs[1:] {
+		for _, n := range vrfs {
 			if err := s.S.AddNetworkInstance(n); err != nil {
 				panic(err)
 			}
 		}
 	} else {
-		s = drive.NewSrv(h.FwdRefs, hgen.NIs[1:], o.SrvOpts...)
+		s = drive.NewSrv(h.FwdRefs, vrfs, o.SrvOpts...)
 	}
 	if o.Net {
 		s.UseNet()
 		defer s.Shutdown()
 	}
-	m := model.New("DEFAULT", hgen.NIs[1:], h.FwdRefs)
+	m := model.New("DEFAULT", vrfs, h.FwdRefs)
 	m.RefCheck = !o.NoRefCheck
 	fold := obs.State{}
 	type sent struct {
@@ -235,7 +242,7 @@ func RunHistory(h hgen.History, o Opts) (*ev.Verdict, *l1.Trace) {
 				}
 				nis = st.Flush
 				if len(nis) != 1 {
-					nis = hgen.NIs
+					nis = allNIs
 				}
 			}
 			m.Flush(nis)
